@@ -15,6 +15,21 @@ class FakeRedis(object):
 
     def __init__(self):
         self.db = {}
+        self.hook = None
+
+    def __getattribute__(self, name):
+        # every command is a round trip: a yield point when a hook is installed
+        attr = object.__getattribute__(self, name)
+        if name in ('hsetnx', 'hset', 'hmset', 'hincrby', 'hget', 'hmget', 'keys', 'delete', 'rpush', 'blpop'):
+            hook = object.__getattribute__(self, 'hook')
+            if hook:
+                def wrapped(*a, **kw):
+                    hook()
+                    r = attr(*a, **kw)
+                    hook()
+                    return r
+                return wrapped
+        return attr
 
     @staticmethod
     def _b(v):
@@ -132,6 +147,20 @@ class FakeObjectStore(object):
 
     def __init__(self):
         self.objs = {}
+        self.hook = None
+
+    def __getattribute__(self, name):
+        attr = object.__getattribute__(self, name)
+        if name in ('write_message', 'set_message_meta', 'get_message_meta', 'get_message', 'delete_message', 'list_messages'):
+            hook = object.__getattribute__(self, 'hook')
+            if hook:
+                def wrapped(*a, **kw):
+                    hook()
+                    r = attr(*a, **kw)
+                    hook()
+                    return r
+                return wrapped
+        return attr
 
     def write_message(self, envelope, timestamp):
         id = str(uuid.uuid4())
